@@ -1,13 +1,171 @@
-import MptModel.Impl.Linepart
+/-
+  C18 — Visible line parts partition the data exactly.   PROPERTY THEOREMS ONLY.
+
+  M = `Mpt.Linepart` (MptModel/Impl/Linepart.lean, mirrors mptplot/values/linepart_linear.c,
+  linepart_code.c, linepart_join.c), S = `Mpt.Visible` (MptModel/Spec/Visible.lean).
+  Values are exact rationals: every theorem holds for ALL value sequences and ALL ranges (also
+  degenerate and inverted ones) over `Rat`; rounding of `double`, infinities and NaN are outside the model.
+  `parts xs range` is the record sequence of the caller's loop (repeated calls advancing by `raw`).
+  Not modelled: the re-apply/merge path of `linepart::array::apply` in mpt++/linepart.cpp.
+-/
+import MptModel.Lemmas.LinepartFrac
+
 namespace Mpt.C18
 open Mpt.Visible Mpt.Linepart
 
+/-- **Progress**: on a non-empty window one call consumes at least one and at most
+    `min len 65535` points (with or without a range). -/
+theorem progress (xs : List Rat) (range : Option Range) (h : 0 < xs.length) :
+    0 < (linepartLinear xs range).raw ∧ (linepartLinear xs range).raw ≤ min xs.length 65535 :=
+  linear_progress xs range h
+
+example : (linepartLinear [-1, -1, 1/2] (some ⟨0, 1⟩)).raw = 1 := by decide +kernel
+
+/-- all four fields fit their 16-bit storage: the `uint16_t` increments of the C code never wrap -/
+theorem fields_fit (xs : List Rat) (r : Range) :
+    (linepartLinear xs (some r)).raw ≤ 65535 ∧ (linepartLinear xs (some r)).usr ≤ 65535 ∧
+    (linepartLinear xs (some r)).cut ≤ 65535 ∧ (linepartLinear xs (some r)).trim ≤ 65535 := by
+  have hu : u16max = 65535 := rfl
+  have hraw : (linepartLinear xs (some r)).raw ≤ 65535 ∧ (linepartLinear xs (some r)).usr ≤ 65535 := by
+    by_cases hne : 0 < xs.length
+    · have ok := linear_ok r xs hne
+      exact ⟨by have := ok.raw_le; omega, by have := ok.usr_le; omega⟩
+    · have : xs = [] := List.eq_nil_of_length_eq_zero (by omega)
+      subst this
+      exact ⟨by simp [linepartLinear, linearCore, headCut, visLen], by simp [linepartLinear, linearCore, headCut, visLen]⟩
+  refine ⟨hraw.1, hraw.2, ?_, ?_⟩
+  · show (linearCore r (xs.take u16max)).cut ≤ 65535
+    rw [linearCore_eq]
+    split <;> simp only [] <;> split <;> first | omega | skip
+    all_goals (unfold cutCode; split <;> first | exact u16_le _ | omega)
+  · show (linearCore r (xs.take u16max)).trim ≤ 65535
+    rw [linearCore_eq]
+    split <;> simp only [] <;> first | omega | skip
+    split <;> first | exact u16_le _ | omega
+
+/-- **Partition**: the records of the repeated calls consume every input point exactly once — the `raw`
+    counts add up to the number of points — and every record consumes at least one point.
+    For all sequences and all ranges (and for the NULL range). -/
+theorem partition (xs : List Rat) (range : Option Range) :
+    ((parts xs range).map (·.raw)).sum = xs.length ∧ ∀ p ∈ parts xs range, 0 < p.raw :=
+  ⟨partsAux_sum range xs.length xs (Nat.le_refl _), partsAux_pos range xs.length xs⟩
+
+example : parts [-1, 1/2, 1/2, 2, 2, 1/2] (some ⟨0, 1⟩)
+    = [{ raw := 4, usr := 4, cut := 43690, trim := 43690 }, { raw := 2, usr := 2, cut := 43690, trim := 0 }] := by
+  decide +kernel
+
+/-- **Visible once**: every visible point (at-min and at-max included) lies in the drawn portion
+    `[start, start+usr)` of exactly one part. -/
+theorem visible_once (xs : List Rat) (r : Range) (i : Nat) (h : insideAt r xs i) :
+    drawnCount (parts xs (some r)) 0 i = 1 :=
+  (partsAux_drawn r xs.length xs 0 (Nat.le_refl _) i).2 (Nat.zero_le _) h
+
+example : insideAt ⟨0, 1⟩ [-1, 1/2, 1/2, 2, 2, 1/2] 5 := by decide +kernel
+
+/-- **No hidden interior point is drawn**: every point strictly between the first and the last drawn point
+    of a part is visible (only the first point of a part with a cut and the last point of a part with a trim
+    lie outside the range). -/
+theorem interior_visible (xs : List Rat) (r : Range) :
+    InteriorVisible r xs (parts xs (some r)) 0 :=
+  partsAux_interior r xs xs.length xs 0 (by intro j; simp) (Nat.le_refl _)
+
+/-- **Fraction accuracy**: decoding the 16-bit code of a fraction `0 ≤ f ≤ 1` gives `f` up to one unit of
+    the encoding, never more than `f`: `0 ≤ f − real (code f) ≤ 1/65536`; the code itself fits 16 bits. -/
+theorem fraction_accuracy (f : Rat) (h0 : 0 ≤ f) (h1 : f ≤ 1) :
+    real (code f) ≤ f ∧ f - real (code f) ≤ 1 / 65536 ∧ 0 ≤ code f ∧ code f ≤ 65535 :=
+  ⟨(code_accuracy f h0 h1).1, (code_accuracy f h0 h1).2, (code_bounds f h0 h1).1, (code_bounds f h0 h1).2⟩
+
+example : code (2/3) = 43690 ∧ real 43690 = 21845/32768 := by decide +kernel
+
+/-- **The stored cut is the code of the exact crossing fraction**: when a part draws at least two points and
+    its first point `x0` is invisible, the second point `x1` is visible, the stored `cut` is the code of the
+    fraction `t` with `x0 + t·(x1 − x0) = bound` (`bound` = the range limit next to `x0`), and `0 < t ≤ 1`. -/
+theorem cut_is_crossing (xs : List Rat) (r : Range) (x0 x1 : Rat)
+    (h0 : xs[0]? = some x0) (h1 : xs[1]? = some x1) (ho : ¬ insideAt r xs 0)
+    (hu : 2 ≤ (linepartLinear xs (some r)).usr) :
+    r.has x1 = true ∧
+    (linepartLinear xs (some r)).cut = (code (crossing x0 x1 (nearBound r x0))).toNat ∧
+    0 < crossing x0 x1 (nearBound r x0) ∧ crossing x0 x1 (nearBound r x0) ≤ 1 ∧
+    x0 + crossing x0 x1 (nearBound r x0) * (x1 - x0) = nearBound r x0 := by
+  have hum : u16max = 65535 := rfl
+  have hl : 0 < (xs.take u16max).length := by
+    rw [List.length_take]
+    cases xs with
+    | nil => simp at h0
+    | cons a as => simp; omega
+  have ok := linearCore_ok r (xs.take u16max) hl
+  have hu' : 2 ≤ (linearCore r (xs.take u16max)).usr := hu
+  have e0 : (xs.take u16max)[0]? = some x0 := by rw [List.getElem?_take, if_pos (by omega)]; exact h0
+  have e1 : (xs.take u16max)[1]? = some x1 := by rw [List.getElem?_take, if_pos (by omega)]; exact h1
+  have hc := ok.first (by omega) (fun hin => ho ((insideAt_take r xs u16max 0 (by omega)).1 hin))
+  obtain ⟨_, y0, y1, f0, f1, hout, hhas⟩ := headCut_spec r _ hc
+  rw [e0] at f0; rw [e1] at f1; cases f0; cases f1
+  obtain ⟨c1, c2, c3, c4⟩ := cutFrac_crossing r x0 x1 hout hhas
+  refine ⟨hhas, ?_, c2, c3, c4⟩
+  show (linearCore r (xs.take u16max)).cut = _
+  rw [core_cut r _ hc x0 x1 e0 e1, c1, u16_code _ (by grind) c3]
+
+example : (linepartLinear [-1, 1/2, 1/2] (some ⟨0, 1⟩)).cut = 43690 ∧ crossing (-1) (1/2) 0 = 2/3 := by decide +kernel
+
+/-- **The stored trim is the code of the exact crossing fraction**: when the last drawn point `x` of a part
+    with at least two drawn points is invisible, its predecessor `prev` is visible and the stored `trim` is
+    the code of the fraction `t` (measured from `x`) with `x + t·(prev − x) = bound`, `0 < t ≤ 1`. -/
+theorem trim_is_crossing (xs : List Rat) (r : Range) (prev x : Rat)
+    (hu : 2 ≤ (linepartLinear xs (some r)).usr)
+    (hp : xs[(linepartLinear xs (some r)).usr - 2]? = some prev)
+    (hx : xs[(linepartLinear xs (some r)).usr - 1]? = some x)
+    (ho : ¬ insideAt r xs ((linepartLinear xs (some r)).usr - 1)) :
+    r.has prev = true ∧
+    (linepartLinear xs (some r)).trim = (code (crossing x prev (nearBound r x))).toNat ∧
+    0 < crossing x prev (nearBound r x) ∧ crossing x prev (nearBound r x) ≤ 1 ∧
+    x + crossing x prev (nearBound r x) * (prev - x) = nearBound r x := by
+  have hum : u16max = 65535 := rfl
+  have hne : 0 < xs.length := by
+    cases xs with
+    | nil => simp at hx
+    | cons a as => simp
+  have okx := linear_ok r xs hne
+  have hule := okx.usr_le
+  change 2 ≤ (linearCore r (xs.take u16max)).usr at hu
+  change xs[(linearCore r (xs.take u16max)).usr - 2]? = some prev at hp
+  change xs[(linearCore r (xs.take u16max)).usr - 1]? = some x at hx
+  change ¬ insideAt r xs ((linearCore r (xs.take u16max)).usr - 1) at ho
+  change (linearCore r (xs.take u16max)).usr ≤ min xs.length u16max at hule
+  obtain ⟨hlt, hz, hus⟩ := core_trim_case r (xs.take u16max) hu
+    (fun hin => ho ((insideAt_take r xs u16max _ (by omega)).1 hin))
+  have ep : (xs.take u16max)[bIdx r (xs.take u16max) - 1]? = some prev := by
+    rw [List.getElem?_take, if_pos (by omega), ← hp]; congr 1; omega
+  have ex : (xs.take u16max)[bIdx r (xs.take u16max)]? = some x := by
+    rw [List.getElem?_take, if_pos (by omega), ← hx]; congr 1; omega
+  obtain ⟨y, hy, hyh⟩ := bIdx_prev_inside r (xs.take u16max) (by omega)
+  rw [ep] at hy; cases hy
+  obtain ⟨z, hz2, hzo⟩ := bIdx_stop r (xs.take u16max) hlt
+  rw [ex] at hz2; cases hz2
+  obtain ⟨c1, c2, c3, c4⟩ := cutFrac_crossing r x prev hzo hyh
+  refine ⟨hyh, ?_, c2, c3, c4⟩
+  show (linearCore r (xs.take u16max)).trim = _
+  rw [core_trim r _ hlt hz prev x ep ex, trimFrac_eq, c1, u16_code _ (by grind) c3]
+
+example : (linepartLinear [1/2, 1/2, 2] (some ⟨0, 1⟩)).usr = 3 ∧
+    (linepartLinear [1/2, 1/2, 2] (some ⟨0, 1⟩)).trim = 43690 := by decide +kernel
+
+/-- **Join keeps the totals**: a successful join yields one record whose `raw` and `usr` are the sums of the
+    two records (so the sums over a record list are unchanged), keeps the cut of the first and the trim of
+    the second record, fits the 16-bit fields when its inputs do, and happens only when the first record has
+    no hidden tail (`usr = raw`, no trim) and the second no cut — i.e. the joined record denotes the same
+    drawn points.  A refused join changes nothing (`none`). -/
 theorem join_total (to post j : Part) (h : linepartJoin to post = some j) :
-    j.raw = to.raw + post.raw ∧ j.usr = to.usr + post.usr := by
+    j.raw = to.raw + post.raw ∧ j.usr = to.usr + post.usr ∧ j.cut = to.cut ∧ j.trim = post.trim ∧
+    (to.raw ≤ 65535 → to.usr ≤ 65535 → j.raw ≤ 65535 ∧ j.usr ≤ 65535) ∧
+    to.usr = to.raw ∧ to.trim = 0 ∧ post.cut = 0 := by
   unfold linepartJoin at h
+  have hu : u16max = 65535 := rfl
   split at h; · cases h
   split at h; · cases h
   split at h; · cases h
-  cases h; exact ⟨rfl, rfl⟩
+  cases h
+  refine ⟨rfl, rfl, rfl, rfl, ?_, ?_, ?_, ?_⟩ <;> first | omega | (simp only []; omega)
+
+example : linepartJoin ⟨3, 3, 7, 0⟩ ⟨2, 2, 0, 9⟩ = some ⟨5, 5, 7, 9⟩ := by decide +kernel
 
 end Mpt.C18
